@@ -266,6 +266,113 @@ fn run_prompt_job(job: &Job, cnt: &mut BTreeMap<String, u64>) -> Option<Violatio
     None
 }
 
+
+/// Sampling loop with the ff_tokens capability: a `Constraint` from a factory with ff_tokens on,
+/// in lock step with a plain `Matcher` (ff_tokens off) that is fed every token the constraint
+/// reports. In every state: same stop status, same mask; the tokens `commit_token` returns are the
+/// sampled token followed by tokens that decode to a prefix of the bytes forced after it, and the
+/// matcher accepts each of them.
+fn constraint_ff_job(job: &Job, depth: usize, max_nodes: u64) -> (u64, u64, u64, Option<Violation>) {
+    use llguidance::{Constraint, Matcher};
+    let (Ok(ff), Ok(fm)) = (Factory::with_ff_tokens(&job.vocab, &Slices::Default), Factory::new(&job.vocab, &Slices::Default)) else { return (0, 0, 0, None) };
+    let Ok(tp) = ff.factory.create_parser(job.item.g.top()) else { return (0, 0, 0, None) };
+    let Ok(m0) = fm.try_matcher(&job.item.g) else { return (0, 0, 0, None) };
+    let c0 = Constraint::new(tp);
+    let mut nodes = 0u64;
+    let mut trans = 0u64;
+    let mut spliced = 0u64;
+    let mut stack: Vec<(Constraint, Matcher, Vec<u32>)> = vec![(c0, m0, vec![])];
+    let mk = |check: &str, hist: &[u32], what: serde_json::Value| viol(job, check, "sampling-loop-ff-tokens-differ", hist, what, "");
+    while let Some((mut c, mut m, hist)) = stack.pop() {
+        crate::watchdog::beat();
+        nodes += 1;
+        if nodes > max_nodes {
+            break;
+        }
+        let r = match c.compute_mask() {
+            Ok(r) => r.clone(),
+            Err(e) => {
+                let s = e.to_string();
+                if crate::props::c01::is_resource_limit(&s) {
+                    return (nodes, trans, spliced, None);
+                }
+                return (nodes, trans, spliced, Some(mk("constraint_mask_error", &hist, json!({"err": s}))));
+            }
+        };
+        if r.is_stop() {
+            if !m.is_stopped() && !m.clone().is_accepting().unwrap_or(false) {
+                return (nodes, trans, spliced, Some(mk("constraint_stops_matcher_does_not", &hist, json!({}))));
+            }
+            continue;
+        }
+        let Some(cm) = r.sample_mask.as_ref() else {
+            return (nodes, trans, spliced, Some(mk("unconditional_splice_from_compute_mask", &hist, json!({"note": "compute_mask returned neither a mask nor a stop"}))));
+        };
+        if m.is_stopped() {
+            return (nodes, trans, spliced, Some(mk("matcher_stopped_constraint_not", &hist, json!({}))));
+        }
+        let mm = match m.compute_mask() {
+            Ok(x) => x,
+            Err(e) => return (nodes, trans, spliced, Some(mk("matcher_mask_error", &hist, json!({"err": e.to_string()})))),
+        };
+        if mask_to_vec(cm) != mask_to_vec(&mm) {
+            return (nodes, trans, spliced, Some(mk("masks_differ", &hist, json!({"constraint": mask_to_vec(cm), "matcher": mask_to_vec(&mm)}))));
+        }
+        if hist.len() >= depth {
+            continue;
+        }
+        let toks = mask_to_vec(cm);
+        let picks: Vec<u32> = if toks.len() <= 4 { toks.clone() } else { vec![toks[0], toks[toks.len() / 3], toks[2 * toks.len() / 3], toks[toks.len() - 1]] };
+        for t in picks {
+            let mut c2 = c.deep_clone();
+            // deep_clone drops the pending step result: ask again (a second mask in the same state)
+            if c2.compute_mask().is_err() {
+                continue;
+            }
+            let mut m2 = m.clone();
+            trans += 1;
+            let cr = match c2.commit_token(Some(t)) {
+                Ok(cr) => cr,
+                Err(e) => {
+                    let s = e.to_string();
+                    if crate::props::c01::is_resource_limit(&s) {
+                        return (nodes, trans, spliced, None);
+                    }
+                    return (nodes, trans, spliced, Some(mk("commit_of_mask_token_failed", &hist, json!({"token": t, "err": s}))));
+                }
+            };
+            if m2.consume_token(t).is_err() {
+                return (nodes, trans, spliced, Some(mk("matcher_refuses_mask_token", &hist, json!({"token": t}))));
+            }
+            // what the property asks of the returned tokens: the sampled token first, no backtrack, then
+            // fast-forward tokens that decode to a prefix of the bytes forced after the sampled token and
+            // that the matcher accepts one by one (returning fewer of them is legitimate)
+            if cr.backtrack != 0 || cr.ff_tokens.first() != Some(&t) {
+                return (nodes, trans, spliced, Some(mk("commit_result_head", &hist, json!({"token": t, "commit_ff_tokens": cr.ff_tokens, "backtrack": cr.backtrack}))));
+            }
+            let extra: Vec<u32> = cr.ff_tokens[1..].to_vec();
+            let forced = if m2.is_stopped() { vec![] } else { m2.clone().compute_ff_bytes() };
+            let dec = ff.env.tok_trie().decode_raw(&extra);
+            if !forced.starts_with(&dec) {
+                return (nodes, trans, spliced, Some(mk("ff_tokens_not_forced", &hist, json!({"token": t, "commit_ff_tokens": cr.ff_tokens, "decoded": show(&dec), "forced_bytes": show(&forced)}))));
+            }
+            if !extra.is_empty() {
+                spliced += 1;
+            }
+            for f in extra.iter() {
+                if m2.consume_token(*f).is_err() {
+                    return (nodes, trans, spliced, Some(mk("matcher_refuses_ff_token", &hist, json!({"token": t, "ff": extra}))));
+                }
+            }
+            let exp_all = cr.ff_tokens.clone();
+            let mut h2: Vec<u32> = hist.to_vec();
+            h2.extend(exp_all.iter().copied());
+            stack.push((c2, m2, h2));
+        }
+    }
+    (nodes, trans, spliced, None)
+}
+
 pub fn run(ctx: &Ctx) -> Coverage {
     let mut items = c13_items();
     items.extend(crate::gen::lark_family(ctx.tier.pick(3, 4)));
@@ -299,12 +406,22 @@ pub fn run(ctx: &Ctx) -> Coverage {
             }
             ctx.add_counts(&cnt);
         }
+        if !big && !ctx.over_budget() {
+            let (nodes, trans, spliced, v) = constraint_ff_job(job, ctx.tier.pick(5, 8), ctx.tier.pick(600, 20_000));
+            ctx.states.fetch_add(nodes, Ordering::Relaxed);
+            ctx.transitions.fetch_add(trans, Ordering::Relaxed);
+            ctx.count("sampling_loop_ff_nodes", nodes);
+            ctx.count("sampling_loop_commits_with_ff_tokens", spliced);
+            if let Some(v) = v {
+                ctx.violation(v);
+            }
+        }
         ctx.sample(json!({"grammar": job.item.g.short(), "vocab": job.vocab.name}));
     });
     if ctx.get_count("states_with_forced_bytes") == 0 || ctx.get_count("states_with_ff_tokens") == 0 {
         ctx.machinery_error("vacuous run: no forced bytes / ff tokens seen");
     }
     Coverage::StateGraph {
-        rule: format!("lock-step BFS over pairs (canonical-tokenizer engine, single-byte reference engine on the same grammar), depth {depth}, <= {max_states} pairs per job; in every pair each reported forced byte must be the reference's only allowed byte, ff tokens must decode to a prefix of the forced bytes, commit, and leave the remainder pending; every mask token is validated byte-wise on the reference; plus process_prompt on every canonical prompt of <= 2 tokens"),
+        rule: format!("lock-step BFS over pairs (canonical-tokenizer engine, single-byte reference engine on the same grammar), depth {depth}, <= {max_states} pairs per job; in every pair each reported forced byte must be the reference's only allowed byte, ff tokens must decode to a prefix of the forced bytes, commit, and leave the remainder pending; every mask token is validated byte-wise on the reference; plus process_prompt on every canonical prompt of <= 2 tokens; plus the sampling loop with the ff_tokens capability (Constraint) in lock step with a Matcher without it: same stop status and mask in every state, commit_token returns the sampled token followed by tokens that decode to a prefix of the bytes forced there and that the matcher accepts"),
     }
 }
